@@ -1,5 +1,8 @@
+import Lean.Data.Json
 import NGF.Model.Leader
 import NGF.Model.LeaderJudge
+import NGF.Model.LeaderWiring
+import NGF.Model.LeaderWiringJudge
 import NGF.Model.Proto
 /-
 Driver entry for C09.
@@ -9,6 +12,13 @@ Driver entry for C09.
   judge line :  `elected=<n|-> ops=<hop;hop;…> writes=<w;w;…>`
                  hop: `u:<g>:<call>:<ret>:<reqs>` | `e:<call>:<ret>:<panicked 0|1>`
                  w  : `<opindex>:<tag>:<stamp>`   (`-` = no writes)
+  output     :  `ok` | `fail <clause>`
+  wmodel line:  `evs=<step;step;…>`     step: events joined by `+`; event: `B:<all>:<gw>` | `N` | `C:<cp>` | `S:<gw>` |
+                                        `E:<order>`   (request lists: interned ids)
+  output     :  `groups=<g,g;…> outs=<o;o;…>`  the groups every step submits (`HEv.groups`) and, per UpdateGroup /
+                                        Enable call, what `runR allFresh` writes (format of `outs` above)
+  wjudge line:  JSON {"steps":[{"e":bool,"subs":[g…],"want":null|[[req…],[req…],[req…]],"wrote":[req…]}…]},
+                req = [kind, ns, name, payload]
   output     :  `ok` | `fail <clause>`
 -/
 namespace NGF.Leader
@@ -87,13 +97,71 @@ def judgeLine (line : String) : String :=
     | none => "ok"
     | some c => "fail " ++ c
 
+/-! ### wiring stream -/
+
+def parseHEv (s : String) : Option HEv :=
+  match s.splitOn ":" with
+  | ["B", a, g] => do
+    let a ← parseNatList a
+    let g ← parseNatList g
+    pure (.graph a g)
+  | ["N"] => some .noChange
+  | ["C", c] => (parseNatList c).map HEv.control
+  | ["S", g] => (parseNatList g).map HEv.frontSvc
+  | ["E", o] => (parseNatList o).map HEv.enable
+  | _ => none
+
+def parseWSteps (s : String) : Option (List (List HEv)) :=
+  (s.splitOn ";").mapM fun st => (st.splitOn "+").mapM parseHEv
+
+def wmodelLine (line : String) : String :=
+  let fs := line.splitOn " "
+  match field fs "evs" >>= parseWSteps with
+  | some steps =>
+    let evs := steps.flatten
+    let groups := steps.map fun st => showNatList (st.flatMap HEv.groups)
+    let outs := (runR allFresh evs).map showOut
+    "groups=" ++ ";".intercalate groups ++ " outs=" ++ (if outs.isEmpty then "-" else ";".intercalate outs)
+  | none => "bad-op"
+
+open Lean (Json) in
+def parseSReq (j : Json) : Except String SReq := do
+  match (← j.getArr?).toList with
+  | [k, n, m, p] => return ⟨← k.getNat?, ← n.getNat?, ← m.getNat?, ← p.getNat?⟩
+  | _ => throw "request"
+
+open Lean (Json) in
+def parseWStep (j : Json) : Except String WStep := do
+  let e ← (← j.getObjVal? "e").getBool?
+  let subs ← (← (← j.getObjVal? "subs").getArr?).toList.mapM (·.getNat?)
+  let wrote ← (← (← j.getObjVal? "wrote").getArr?).toList.mapM parseSReq
+  let wj ← j.getObjVal? "want"
+  let want ← if wj.isNull then pure none else do
+    let gs ← (← wj.getArr?).toList.mapM fun g => do (← g.getArr?).toList.mapM parseSReq
+    pure (some gs)
+  return { enable := e, subs := subs, want := want, wrote := wrote }
+
+open Lean (Json) in
+def wjudgeLine (line : String) : String :=
+  match Json.parse line with
+  | .error _ => "bad-op"
+  | .ok j =>
+    match (do (← (← j.getObjVal? "steps").getArr?).toList.mapM parseWStep : Except String (List WStep)) with
+    | .error _ => "bad-op"
+    | .ok steps =>
+      match judgeW steps with
+      | none => "ok"
+      | some c => "fail " ++ c
+
 def driver (args : List String) : IO UInt32 := do
   let stdin ← IO.getStdin
   let stdout ← IO.getStdout
   match args with
   | ["model"] => forEachLine stdin fun l => stdout.putStrLn (modelLine l)
   | ["judge"] => forEachLine stdin fun l => stdout.putStrLn (judgeLine l)
-  | _ => IO.eprintln "usage: C09 model|judge"; return 2
+  | ["wmodel"] => forEachLine stdin fun l => stdout.putStrLn (wmodelLine l)
+  | ["wjudge"] => forEachLine stdin fun l => stdout.putStrLn (wjudgeLine l)
+  | _ => IO.eprintln "usage: C09 model|judge|wmodel|wjudge"; return 2
   return 0
 
 end NGF.Leader
